@@ -967,6 +967,22 @@ def _smd_targeted() -> List[Tuple[str, Callable[[], Any]]]:
 # and "constructed shape" (without it).
 # ---------------------------------------------------------------------------------------------
 
+def _pcf_renamed(rename_operator: bool):
+    """What Particle.parse() returns for a one-system file, after the caller renamed the system / its operator."""
+    import io
+    from srctools.dmx import Element
+    from srctools.particles import Particle, Operator
+    buf = io.BytesIO()
+    Particle.export([Particle('old_name', {}, operators=[Operator('old_op', 'f', {})])]).export_binary(buf, 5)
+    buf.seek(0)
+    [part] = Particle.parse(Element.parse(buf)[0]).values()
+    if rename_operator:
+        part.operators[0].name = 'new_op'
+    else:
+        part.name = 'new_name'
+    return [part]
+
+
 _PCF_OP_LISTS = ['renderers', 'operators', 'initializers', 'emitters', 'forces', 'constraints']
 _PCF_RESERVED = {'name', 'functionname', 'children', *_PCF_OP_LISTS}
 _PCF_STR = _IDENT + ' ./-_:;<>()[]{}!?#$%&*+=@^~|,\''
@@ -1072,7 +1088,7 @@ def _pcf_options(rng: random.Random, owner_name: str, pool: List[str], mixed_cas
 def _gen_pcf(rng: random.Random):
     from srctools.particles import Particle, Operator, Child
     mixed_case = rng.random() < 0.15     # attribute names with upper-case letters
-    with_name = rng.random() < 0.70      # "parsed shape": options carry the 'name' attribute
+    with_name = False                    # the reader keeps the DMX 'name' attribute out of the options ('name' is reserved)
     allow_time = rng.random() < 0.5      # TIME attributes need binary v3+, v2 is skipped then
     names: List[str] = []
     for _ in range(rng.choice([0, 1, 1, 2, 3, 5])):
@@ -1234,7 +1250,7 @@ def _pcf_targeted() -> List[Tuple[str, Callable[[], Any]]]:
         from srctools.dmx import Attribute, ValueType
         return Attribute(name, ValueType[vt_name], value)
 
-    def P(name, opts=(), named=True, **lists):
+    def P(name, opts=(), named=False, **lists):
         """opts: attributes; named: add the leading 'name' attribute the reader produces."""
         from srctools.particles import Particle, Child
         options = {}
@@ -1245,7 +1261,7 @@ def _pcf_targeted() -> List[Tuple[str, Callable[[], Any]]]:
         children = [Child(c) for c in lists.pop('children', ())]
         return Particle(name, options, children=children, **lists)
 
-    def O(name, func, opts=(), named=True):
+    def O(name, func, opts=(), named=False):
         from srctools.particles import Operator
         options = {}
         if named:
@@ -1282,9 +1298,8 @@ def _pcf_targeted() -> List[Tuple[str, Callable[[], Any]]]:
         ('attribute_name_mixed_case', lambda: [P('sys', [A('Max_Particles', 'INTEGER', 5)],
                                                 operators=[O('op', 'f', [A('Visibility Proxy Radius', 'FLOAT', 2.0)])])]),
         # What Particle.parse() returns, after the caller renamed the system / the operator.
-        ('system_renamed_after_parse', lambda: [P('new_name', [A('name', 'STRING', 'old_name')], named=False)]),
-        ('operator_renamed_after_parse', lambda: [P('sys', operators=[
-            O('new_op', 'f', [A('name', 'STRING', 'old_op')], named=False)])]),
+        ('system_renamed_after_parse', lambda: _pcf_renamed(False)),
+        ('operator_renamed_after_parse', lambda: _pcf_renamed(True)),
     ]
 
 
